@@ -177,6 +177,17 @@ public:
   void rootAt(Graph::NodeId newRoot);
 
   /**
+   * Set the root node (the topology is not changed, but the tree may not
+   * span all nodes from the new root: the validity has to be tested again).
+   */
+
+  void setRoot(Graph::NodeId newRoot)
+  {
+    GraphImpl::setRoot(newRoot);
+    topologyHasChanged_();
+  }
+
+  /**
    * Set the tree to its flat unrooted version.
    * As an algorithmical convenience, a root node is kept, but it has
    * no logical significance.
